@@ -62,7 +62,7 @@ def scenario_shard(
             vs.extend(post(run))
         if run.crash:
             tally.aborted[run.crash[0]] = tally.aborted.get(run.crash[0], 0) + 1
-            if crash_is_violation:
+            if crash_is_violation and not run.timed_out:
                 vs.append(Violation(prop, f"{prop}/run-raised/{run.crash[0]}", "pyhms raised on a sound configuration: " + run.crash[1][-700:]))
             else:
                 vs = []  # the case is discarded for this property (foreign defect)
@@ -89,7 +89,7 @@ def replay_scenario(sc: dict, make_checkers, run_kwargs=None, crash_is_violation
     if post is not None and not run.crash:
         vs.extend(post(run))
     if run.crash:
-        if crash_is_violation:
+        if crash_is_violation and not run.timed_out:
             vs.append(Violation(prop, f"{prop}/run-raised/{run.crash[0]}", "pyhms raised: " + run.crash[1][-700:]))
         else:
             print("  (case aborted by a pyhms exception: %s)" % run.crash[0])
